@@ -21,6 +21,9 @@ pub enum HOp {
     /// poll subscriber `sub` up to `max` times (0 = until Pending/None)
     Poll { sub: usize, max: usize },
     DropSub(usize),
+    /// drop every subscriber stream including the reference one (the vector has no receivers until the
+    /// next subscription)
+    DropAll,
     DropVec,
 }
 
@@ -37,6 +40,7 @@ impl HOp {
                 }
             }
             HOp::DropSub(s) => format!("drop(s{s})"),
+            HOp::DropAll => "drop(all subscribers)".into(),
             HOp::DropVec => "drop(vector)".into(),
         }
     }
@@ -90,6 +94,7 @@ pub struct Facts {
     pub wakes_checked: u64,
     pub subs: u64,
     pub batched_items: u64,
+    pub receiverless_ops: u64,
 }
 
 enum SubStream {
@@ -111,9 +116,12 @@ struct Sub {
 
 struct Mon {
     capacity: usize,
-    ref_stream: Pin<Box<VectorSubscriberBatchedStream<Tracked>>>,
+    /// None while the vector has no receivers at all (after DropAll / DropSubs)
+    ref_stream: Option<Pin<Box<VectorSubscriberBatchedStream<Tracked>>>>,
     ref_ended: bool,
     msgs: Vec<Vec<D>>,
+    /// indices of the messages published by a transaction commit
+    commit_msgs: std::collections::HashSet<usize>,
     subs: Vec<Sub>,
     /// Some(final contents) once the vector is dropped
     final_contents: Option<Vec<Item>>,
@@ -131,9 +139,10 @@ impl Mon {
         if self.ref_ended {
             return;
         }
+        let Some(rs) = self.ref_stream.as_mut() else { return };
         let (_f, w) = flag_waker();
         let mut cx = Context::from_waker(&w);
-        match self.ref_stream.as_mut().poll_next(&mut cx) {
+        match rs.as_mut().poll_next(&mut cx) {
             Poll::Ready(Some(batch)) => {
                 let ds = to_ds(&batch);
                 if ds.is_empty() && self.fault.is_none() {
@@ -153,6 +162,25 @@ impl Mon {
             }
             Poll::Ready(None) => self.ref_ended = true,
             Poll::Pending => {}
+        }
+    }
+
+    /// the vector loses all its receivers
+    fn drop_all(&mut self) {
+        self.ref_stream = None;
+        for s in &mut self.subs {
+            s.stream = None;
+            s.pending = None;
+        }
+    }
+
+    fn has_ref(&self) -> bool {
+        self.ref_stream.is_some()
+    }
+
+    fn ensure_ref(&mut self, ob: &ObservableVector<Tracked>) {
+        if self.ref_stream.is_none() && !self.ref_ended {
+            self.ref_stream = Some(Box::pin(ob.subscribe().into_batched_stream()));
         }
     }
 
@@ -305,8 +333,11 @@ impl Mon {
                             );
                         }
                         if vals(values) != vals(contents_now) {
+                            // the Reset is built from the newest message: if that is a commit, the
+                            // transaction did not reach this subscriber as one unit either
+                            let tag = if n_msgs > 0 && self.commit_msgs.contains(&(n_msgs - 1)) { "C06|C07" } else { "C06" };
                             return div(
-                                "C06",
+                                tag,
                                 format!("Reset delivered to s{i} carries {:?} but the contents are {:?}", vals(values), vals(contents_now)),
                             );
                         }
@@ -398,9 +429,10 @@ fn run_inner(h: &VecHistory) -> Result<Facts, Div> {
     let ref_sub = ob.as_ref().unwrap().subscribe();
     let mut mon = Mon {
         capacity: h.capacity,
-        ref_stream: Box::pin(ref_sub.into_batched_stream()),
+        ref_stream: Some(Box::pin(ref_sub.into_batched_stream())),
         ref_ended: false,
         msgs: vec![],
+        commit_msgs: Default::default(),
         subs: vec![],
         final_contents: None,
         facts: Facts::default(),
@@ -413,8 +445,14 @@ fn run_inner(h: &VecHistory) -> Result<Facts, Div> {
                 let Some(obr) = ob.as_mut() else { continue };
                 step_vop(obr, vop, &mut mon)?;
             }
+            HOp::DropAll => {
+                if ob.is_some() {
+                    mon.drop_all();
+                }
+            }
             HOp::Sub { batched } => {
                 let Some(obr) = ob.as_ref() else { continue };
+                mon.ensure_ref(obr);
                 let sub = obr.subscribe();
                 let snap = items_of(sub.values().iter());
                 let now = contents(obr);
@@ -490,7 +528,7 @@ fn drop_vec(ob: &mut Option<ObservableVector<Tracked>>, mon: &mut Mon) -> Result
         drop(o);
         mon.check_wake_obligations(true)?;
         mon.poll_ref();
-        if !mon.ref_ended {
+        if mon.has_ref() && !mon.ref_ended {
             return div("C08", "reference subscriber did not end after the vector was dropped".into());
         }
     }
@@ -515,6 +553,11 @@ fn step_vop(ob: &mut ObservableVector<Tracked>, vop: &VOp, mon: &mut Mon) -> Res
                              mon: &mut Mon|
              -> Result<(), Div> {
                 for op in ops {
+                    if matches!(op, VOp::DropSubs) {
+                        // every receiver goes away in the middle of the transaction
+                        mon.drop_all();
+                        continue;
+                    }
                     let wb = work.clone();
                     let expect = model_op(work, op);
                     if matches!(op, VOp::Clear) {
@@ -575,6 +618,13 @@ fn step_vop(ob: &mut ObservableVector<Tracked>, vop: &VOp, mon: &mut Mon) -> Res
                 if after != work {
                     return div("C07", format!("after commit the contents are {after:?}, the transaction's working contents were {work:?}"));
                 }
+                if !mon.has_ref() {
+                    // no receiver exists: nothing to publish to; contents were just compared
+                    return Ok(());
+                }
+                for k in n0..mon.msgs.len() {
+                    mon.commit_msgs.insert(k);
+                }
                 let new = &mon.msgs[n0..];
                 if new.len() > 1 {
                     return div("C07", format!("commit published {} messages", new.len()));
@@ -628,6 +678,24 @@ fn step_vop(ob: &mut ObservableVector<Tracked>, vop: &VOp, mon: &mut Mon) -> Res
                     }
                 }
             }
+        }
+        VOp::DropSubs => {
+            mon.drop_all();
+        }
+        _ if !mon.has_ref() => {
+            // no receiver at all: only return values, panics and contents can be judged
+            let mut m = before_v.clone();
+            let expect = model_op(&mut m, vop);
+            let (ret, ids) = exec_on_vec(ob, vop, &mut || {});
+            check_ret(vop, &expect, &ret, &ids, Some(&before), mon, "")?;
+            let after = vals(&contents(ob));
+            if after != m {
+                return div("C17", format!("after {} the contents are {after:?}, a plain vector would hold {m:?}", vop.show()));
+            }
+            if expect == Ret::Panic {
+                mon.facts.panics += 1;
+            }
+            mon.facts.receiverless_ops += 1;
         }
         _ => {
             let mut m = before_v.clone();
@@ -739,6 +807,8 @@ pub struct GenCfg {
     pub max_subs: usize,
     pub poll_pct: usize,
     pub drop_vec_pct: usize,
+    /// per mille: drop every receiver (top level, or in the middle of a transaction body)
+    pub drop_all_pm: usize,
 }
 
 pub fn gen_vec_history(rng: &mut Rng, g: &GenCfg) -> VecHistory {
@@ -790,11 +860,23 @@ pub fn gen_vec_history(rng: &mut Rng, g: &GenCfg) -> VecHistory {
             }
             break;
         }
-        let vop = if rng.below(100) < g.txn_pct {
+        if rng.below(1000) < g.drop_all_pm {
+            ops.push(HOp::DropAll);
+            n_subs = 0;
+            continue;
+        }
+        let mut vop = if rng.below(100) < g.txn_pct {
             gen_txn(rng, model.len(), g.vmax, g.oob, g.trav, g.maxlen)
         } else {
             gen_vop(rng, model.len(), g.vmax, g.oob, g.trav, g.maxlen)
         };
+        if let VOp::Txn(body, _) = &mut vop {
+            if rng.below(1000) < g.drop_all_pm * 4 {
+                let at = rng.below(body.len() + 1);
+                body.insert(at, VOp::DropSubs);
+                n_subs = 0;
+            }
+        }
         apply_model(&mut model, &vop);
         ops.push(HOp::V(vop));
     }
@@ -851,6 +933,7 @@ pub fn record_facts(ev: &mut Ev, f: &Facts) {
     ev.add("wake_obligations_checked", f.wakes_checked);
     ev.add("subscribers", f.subs);
     ev.add("batched_items", f.batched_items);
+    ev.add("operations_without_any_receiver", f.receiverless_ops);
 }
 
 /// Shared runner: executes history `h` for property `prop`; classifies the outcome.
